@@ -11,6 +11,7 @@
 """
 import itertools
 import json
+import re
 import time
 
 from .. import core, gen, obs, rectree
@@ -247,9 +248,41 @@ def shard(ctx):
                         ctx.violation("root-vs-exit", "validate -p: root %s (library root %s) exit %s" % (r3s, root, r3["code"]), case)
             elif core.crash_signature(r3):
                 ctx.inconclusive("crash-in-cli")
+            # several data files in one run: one record tree per file, the exit code follows from ALL root statuses (19 iff some root is FAIL)
+            if t % 3 == 0:
+                others = [json.dumps(gen.gen_doc(rng)), json.dumps({"zz_unrelated": 1})]
+                fl4 = {"r.guard": text, "data/d1.json": docs, "data/d2.json": others[0], "data/d3.json": others[1]}
+                r4 = ctx.w.run({"k": "cli", "argv": ["validate", "-r", "{S}/r.guard", "-d", "{S}/data", "-p", "-S", "none"], "files": fl4})
+                if r4.get("r") == "ok":
+                    roots = []
+                    dec = json.JSONDecoder()
+                    txt, pos_ = r4["out"], 0
+                    while True:
+                        a_ = txt.find("{", pos_)
+                        if a_ < 0:
+                            break
+                        try:
+                            obj, end_ = dec.raw_decode(txt, a_)
+                        except ValueError:
+                            pos_ = a_ + 1
+                            continue
+                        pos_ = end_
+                        if isinstance(obj, dict) and "container" in obj:
+                            roots.append(obs.node_status(obj))
+                    ctx.res.counts["multi_data_roots_vs_exit"] += 1
+                    if len(roots) == 3:
+                        want4 = 19 if "FAIL" in roots else 0
+                        ctx.res.distinct.add(("multi-root", tuple(roots), r4["code"]))
+                        if r4["code"] != want4:
+                            ctx.violation("roots-vs-exit:several-data-files", "validate -p on 3 data files: root statuses %s but exit %s" % (roots, r4["code"]),
+                                          {"kind": "multi", "rules": text, "files": fl4})
 
 
 def replay(case, w):
+    if case["kind"] == "multi":
+        r4 = w.run({"k": "cli", "argv": ["validate", "-r", "{S}/r.guard", "-d", "{S}/data", "-p", "-S", "none"], "files": case["files"]})
+        roots = re.findall(r'"FileCheck":\s*\{[^}]*?"status":\s*"(\w+)"', r4.get("out", ""))
+        return r4.get("code") == (19 if "FAIL" in roots else 0), "roots %s exit %s" % (roots, r4.get("code"))
     if case["kind"] in ("gadget", "default"):
         res = w.run({"k": "rc", "data": case["data"], "rules": case["rules"], "verbose": True})
         if res.get("r") != "ok":
